@@ -66,6 +66,18 @@ def gen_dag(rng):
         attrs = [('id', eid)] + pos + size
         if rng.chance(0.2):
             attrs.append(('class', 'c%d' % i))
+        if i >= 2 and rng.chance(0.08):
+            # a <use> of an earlier rect whose own x / y are references: it is a reference target like any other element
+            rects = [e for e in els if e[1] == 'rect' and not any(a == 'surround' for a, _ in e[2])]
+            if rects:
+                t = rng.choice(rects)[0]; d = rng.choice(els)[0]
+                name = 'use'; deps = [t, d]
+                attrs = [('id', eid), ('href', '#' + t), ('x', '#%s@r %d' % (d, rng.range(0, 4))), ('y', '#%s@b' % d)]
+        elif i >= 1 and rng.chance(0.08):
+            # a group carrying the id, its content placed against another element: its box is known only when the content is
+            d = rng.choice(els)[0]; deps = [d]
+            name = 'gbox'
+            attrs = [('id', eid), ('_child', '<rect xy="#%s|%s %d" wh="%s %s"/>' % (d, rng.choice('hv'), rng.range(0, 3), fmt(w), fmt(h)))]
         els.append((eid, name, attrs, deps))
     r = rng.below(20)
     if r == 0:
@@ -149,6 +161,8 @@ def run(ctx):
         def src(k, els=els, wrapped=wrapped):
             if els[k][1] == 'g':
                 return '<g id="nb"></g>'
+            if els[k][1] == 'gbox':
+                return '<g id="%s">%s</g>' % (els[k][0], dict(els[k][2])['_child'])
             t = xmlcanon.el(els[k][1], els[k][2])
             return '<g>%s</g>' % t if k in wrapped else t
         for oi, o in enumerate(orders):
